@@ -7,6 +7,7 @@ import (
 	"math/rand"
 	"os"
 	"path/filepath"
+	"reflect"
 	"runtime"
 	"strings"
 	"sync"
@@ -73,9 +74,22 @@ func lineText(l stLine, li, k int) (string, error) {
 	return "", fmt.Errorf("unknown kind %q", l.Kind)
 }
 
+// isNilRule is true for a nil interface and for an interface holding a nil pointer (NewRule returns the latter
+// together with an error, and the storage may hand such a value out again).
+func isNilRule(r rules.Rule) bool {
+	if r == nil {
+		return true
+	}
+	v := reflect.ValueOf(r)
+	return v.Kind() == reflect.Ptr && v.IsNil()
+}
+
 func kindOfRule(r rules.Rule, err error) string {
 	if err != nil {
 		return "bad"
+	}
+	if isNilRule(r) {
+		return "none"
 	}
 	switch r.(type) {
 	case *rules.NetworkRule:
@@ -387,7 +401,7 @@ func cmdReplayStorage(args []string) error {
 							if err != nil {
 								return err
 							}
-							st3, cleanup3, err := makeStorage(rl2, false, dir)
+							st3, cleanup3, err := makeStorage(rl2, variant == "denoised", dir)
 							if err != nil {
 								return err
 							}
@@ -604,7 +618,7 @@ func cmdDriveStorage(args []string) error {
 				var r rules.Rule
 				var rerr error
 				pv := safeCall(func() { r, rerr = st2.RetrieveRule(g.idx) })
-				e := stRetrEv{Ok: pv == "" && rerr == nil && r != nil}
+				e := stRetrEv{Ok: pv == "" && rerr == nil && !isNilRule(r)}
 				if e.Ok {
 					e.Kind = kindOfRule(r, nil)
 					e.Same = r.Text() == g.text && r.GetFilterListID() == g.id
